@@ -293,7 +293,10 @@ static pid_t process_fork(const int *except, size_t num_except)
 
 finish:
   if (r < 0) {
-    (void) !write(pipe.write, &errno, sizeof(errno));
+    // `errno` might be stale (e.g. `pthread_sigmask` does not set it) so we
+    // report the error stored in `r` instead.
+    int error = -r;
+    (void) !write(pipe.write, &error, sizeof(error));
     _exit(EXIT_FAILURE);
   }
 
@@ -416,7 +419,8 @@ int process_start(pid_t *process,
 
   child:
     if (r < 0) {
-      (void) !write(pipe.write, &errno, sizeof(errno));
+      int error = -r;
+      (void) !write(pipe.write, &error, sizeof(error));
       _exit(EXIT_FAILURE);
     }
 
